@@ -8,6 +8,7 @@
 #![allow(dead_code)]
 mod lts;
 mod util;
+mod vmh;
 
 mod c01;
 mod c02;
@@ -32,6 +33,7 @@ fn main() {
     let args = util::Args::parse();
     let cmd = args.cmd.clone();
     let rc = None
+        .or_else(|| vmrun(&cmd, &args))
         .or_else(|| c01::dispatch(&cmd, &args))
         .or_else(|| c02::dispatch(&cmd, &args))
         .or_else(|| c03::dispatch(&cmd, &args))
@@ -55,4 +57,22 @@ fn main() {
             2
         });
     std::process::exit(rc);
+}
+
+/// Debug helper: `vh vm-run src=FILE [budget=N] [strict=1]` runs a TeX file on the harness VM.
+fn vmrun(cmd: &str, args: &util::Args) -> Option<i32> {
+    if cmd != "vm-run" {
+        return None;
+    }
+    util::quiet_panics();
+    let src = std::fs::read_to_string(args.req("src")).unwrap();
+    let mut vm = vmh::new_vm(&[], &[]);
+    let r = if args.str("strict").is_some() {
+        vmh::run_src::<vmh::HStrict>(&mut vm, "main.tex", &src, args.num("budget", 1_000_000))
+    } else {
+        vmh::run_src::<vmh::H>(&mut vm, "main.tex", &src, args.num("budget", 1_000_000))
+    };
+    println!("{}", vmh::render(&r.toks));
+    println!("outcome: {:?} steps={}", r.outcome, r.steps);
+    Some(0)
 }
